@@ -28,6 +28,19 @@
 (* low bits count the follower acks still needed (laof / fneed below).     *)
 (* A10Fixed = FALSE keeps the old shared counter as a documentation and    *)
 (* regression model (spec/mc/AckQuorum_prefix.cfg, AckQuorum_a10.cfg).     *)
+(*                                                                         *)
+(* The leader's log is TWO files (aof.go AofFile): the 64-byte entries go  *)
+(* to append.aof.N, the value frames of the entries that carry data        *)
+(* (AOF_FLAG_CONTAINS_DATA: the request has a value operation or the key   *)
+(* already has a value) go to append.aof.N.dat.  AofFile.Flush writes the  *)
+(* entry buffer, then the value buffer; either write can fail alone; the   *)
+(* "own log written" acknowledgements (Aof.lockAcked) are sent after BOTH  *)
+(* (FlushRecords / FlushValues below; a record is "written" when its entry *)
+(* and, if it carries data, its value frame are in the files).             *)
+(* AckAfterRecords = TRUE is the deviating ordering "acknowledge right     *)
+(* after the entry write" (seeded change C11d); its counterexamples        *)
+(* (spec/mc/AckQuorum_c11d_*.cfg) are replayed on the real code as         *)
+(* regression behaviours.                                                  *)
 (***************************************************************************)
 EXTENDS Integers, Sequences, FiniteSets, TLC, Json, SequencesExt, FiniteSetsExt
 
@@ -43,7 +56,9 @@ CONSTANTS
     MaxReq,        \* client requests per behaviour
     MaxNow,        \* clock bound
     MaxNeg,        \* bound on negative outcomes on the follower side
-    MaxFail,       \* bound on failing leader flushes (0 or 1; a failed file stays failed)
+    MaxFail,       \* bound on the number of times one of the two log files starts to fail
+    Heal,          \* FALSE: a file that failed once fails for the rest of the behaviour; TRUE: it may work again (disk full for a while)
+    AckAfterRecords, \* FALSE: the code (acknowledge after both writes); TRUE: deviation "acknowledge after the entry write" (C11d)
     MaxCut,        \* bound on link cuts
     AllowDemote,   \* BOOLEAN
     A10Fixed,      \* TRUE: the code since 3033d68; FALSE: the shared counter before it (see above)
@@ -75,12 +90,17 @@ RemoveIdx(Q, i) == SubSeq(Q, 1, i - 1) \o SubSeq(Q, i + 1, Len(Q))
 -----------------------------------------------------------------------------
 \* replies and ghost bookkeeping
 
-Gh0 == [acks |-> {}, negs |-> {}, req |-> -1, nfpush |-> -1, doomed |-> FALSE, vbefore |-> -1]
+Gh0 == [acks |-> {}, negs |-> {}, req |-> -1, nfpush |-> -1, doomed |-> FALSE, wfail |-> FALSE, vbefore |-> -1]
+
+\* the record of request rid is in the leader's own log: its entry, and its value frame if it carries one
+EntryIn(S, rid) == rid \in S.disk
+ValueIn(S, rid) == ~S.reqs[rid].hv \/ rid \in S.vdisk
+Written(S, rid) == EntryIn(S, rid) /\ ValueIn(S, rid)
 
 Reply(S, rid, res) ==
     LET r == S.reqs[rid] IN
     [S EXCEPT !.out = Append(@, [rid |-> rid, res |-> res, ack |-> r.ack, cmd |-> r.cmd,
-                                 ondisk |-> rid \in S.disk, acks |-> S.gh[rid].acks, req |-> S.gh[rid].req,
+                                 ondisk |-> Written(S, rid), entry |-> EntryIn(S, rid), hv |-> r.hv, value |-> ValueIn(S, rid), acks |-> S.gh[rid].acks, req |-> S.gh[rid].req,
                                  nfpush |-> S.gh[rid].nfpush, doomed |-> S.gh[rid].doomed,
                                  lidpend |-> r.lidpend, ldr |-> r.ldr, dem |-> S.dem]),
               !.reqs[rid].st = "done", !.reqs[rid].nrep = @ + 1]
@@ -98,6 +118,8 @@ Grant(S, rid) ==
                                     undo |-> IF r.dv > 0 THEN S.val ELSE -1, dv |-> r.dv]),
                    !.val = IF r.dv > 0 THEN r.dv ELSE @,
                    !.reqs[rid].st = "pend",
+                   \* LockManager.AofLockData(COMMAND_LOCK): the record carries the key's value when there is one
+                   !.reqs[rid].hv = (IF r.dv > 0 THEN r.dv ELSE S.val) # 0,
                    !.gh[rid].vbefore = S.val,
                    !.chan = Append(@, [t |-> "lock", rid |-> rid, ok |-> TRUE, f |-> 0])]
     ELSE LET S1 == [S EXCEPT !.H = Append(@, [lid |-> r.lid, rid |-> rid, ackc |-> NOACK, laof |-> FALSE, fneed |-> 0,
@@ -188,7 +210,7 @@ ChanItem(S, it) ==
 
 NewReq(S, cmd, lid, ack, dv, to) ==
     LET i == IdxOfLid(S.H, lid) IN
-    [cmd |-> cmd, lid |-> lid, ack |-> ack, dv |-> dv, to |-> to, st |-> "open", nrep |-> 0, dl |-> S.now + to,
+    [cmd |-> cmd, lid |-> lid, ack |-> ack, dv |-> dv, to |-> to, st |-> "open", nrep |-> 0, dl |-> S.now + to, hv |-> FALSE,
      lidpend |-> (i > 0 /\ S.H[i].ackc # NOACK), ldr |-> (S.role = "leader")]
 
 LockReq(lid, ack, dv, to) ==
@@ -220,58 +242,98 @@ UnlockReq(lid) ==
           /\ hist' = Append(hist, [op |-> "unlock", id |-> rid, lid |-> lid, ack |-> FALSE, dv |-> 0, to |-> 0, f |-> 0, rid |-> 0, ok |-> TRUE])
 
 \* the channel goroutine handles its next item
+\* (a FILE item needs Aof.aofGlock, which a flush in progress holds: the goroutine waits)
 ChanStep ==
     /\ s.chan # <<>>
-    /\ s' = ChanItem([s EXCEPT !.chan = Tail(@)], Head(s.chan))
+    /\ s.fl = "mid" => Head(s.chan).t \notin {"lock", "unlock"}
+    /\ s' = ChanItem([s EXCEPT !.chan = Tail(@), !.midsteps = IF s.fl = "mid" THEN @ + 1 ELSE @], Head(s.chan))
     /\ UNCHANGED hist
 
 AckLocksIn(S, B) == SelectSeq(B, LAMBDA rid : S.reqs[rid].ack)
 
-\* AofFile.Flush by whichever goroutine found all channels idle (or a full buffer)
-LeaderFlush(ok) ==
+\* AofFile.Flush by whichever goroutine found all channels idle (or a full buffer), under Aof.aofGlock: first the entry
+\* buffer is written to the record file ...
+SeqSet(q) == {q[j] : j \in 1..Len(q)}
+WithVal(S, B) == SelectSeq(B, LAMBDA rid : S.reqs[rid].hv)
+AckItems(rids, ok) == [j \in 1..Len(rids) |-> [t |-> "aofack", rid |-> rids[j], ok |-> ok, f |-> 0]]
+MarkFailed(G, R) == [r \in DOMAIN G |-> IF r \in R THEN [G[r] EXCEPT !.doomed = TRUE, !.wfail = TRUE] ELSE G[r]]
+FlushEv(op, ok, n) == [op |-> op, id |-> n, lid |-> 0, ack |-> FALSE, dv |-> 0, to |-> 0, f |-> 0, rid |-> 0, ok |-> ok]
+
+FlushRecords(ok) ==
+    /\ s.fl = "idle"
     /\ s.wbuf # <<>>
     /\ s.dem = 0
-    /\ ok => s.fileok
-    /\ ~ok => (s.fileok => (s.nfail < MaxFail /\ s.cls \in {"fail", "mix"}))
-    /\ LET acks == AckLocksIn(s, s.wbuf)
-           items == [j \in 1..Len(acks) |-> [t |-> "aofack", rid |-> acks[j], ok |-> ok, f |-> 0]]
-       IN s' = [s EXCEPT !.wbuf = <<>>,
-                         !.disk = IF ok THEN @ \cup {s.wbuf[j] : j \in 1..Len(s.wbuf)} ELSE @,
-                         !.fileok = ok,
-                         !.nfail = IF ok \/ ~s.fileok THEN @ ELSE @ + 1,
-                         !.chan = @ \o items,
-                         !.gh = [r \in DOMAIN @ |-> IF ~ok /\ r \in {acks[j] : j \in 1..Len(acks)} THEN [@[r] EXCEPT !.doomed = TRUE] ELSE @[r]]]
-    /\ hist' = Append(hist, [op |-> "flush", id |-> 0, lid |-> 0, ack |-> FALSE, dv |-> 0, to |-> 0, f |-> 0, rid |-> 0, ok |-> ok])
+    /\ ok => (s.recok \/ Heal)
+    /\ ~ok => (s.recok => (s.nfail < MaxFail /\ s.cls \in {"fail", "mix"}))
+    /\ LET acks == AckLocksIn(s, s.wbuf) IN
+       s' = IF ok
+            THEN \* entries on disk; the value buffer is still to be written.  Deviation: the acknowledgements go out here
+                 [s EXCEPT !.wbuf = <<>>, !.disk = @ \cup SeqSet(s.wbuf), !.recok = TRUE,
+                           !.fl = "mid", !.flq = s.wbuf, !.midsteps = 0,
+                           !.flacks = IF AckAfterRecords THEN <<>> ELSE acks,
+                           !.chan = IF AckAfterRecords THEN @ \o AckItems(acks, TRUE) ELSE @]
+            ELSE \* first error branch: both buffers dropped, every pending ack request of the buffer answered "not written"
+                 [s EXCEPT !.wbuf = <<>>, !.recok = FALSE,
+                           !.nfail = IF s.recok THEN @ + 1 ELSE @,
+                           !.chan = @ \o AckItems(acks, FALSE),
+                           !.gh = MarkFailed(@, SeqSet(acks))]
+    /\ hist' = Append(hist, FlushEv("flushrec", ok, 0))
 
-\* follower side: the record arrives, is replayed (locked, result res) and appended + flushed (aofed, result ok) in
-\* either order; the second of the two sends the ack frame (ReplicationClient.HandleAcked)
-FAck(f, rid, lres, aok) == [f |-> f, rid |-> rid, ok |-> (lres /\ aok)]
+\* ... then the value buffer to the value file (no write when no record of this flush carries data); second error branch:
+\* the entries are in the record file, the values are not; then the acknowledgements
+FlushValues(ok) ==
+    /\ s.fl = "mid"
+    /\ LET vals == WithVal(s, s.flq) IN
+       /\ (vals = <<>>) => ok
+       /\ ok => (vals = <<>> \/ s.valok \/ Heal)
+       /\ ~ok => (s.valok => (s.nfail < MaxFail /\ s.cls \in {"fail", "mix"}))
+       /\ s' = IF ok
+               THEN [s EXCEPT !.vdisk = @ \cup SeqSet(vals), !.valok = IF vals = <<>> THEN @ ELSE TRUE,
+                              !.fl = "idle", !.flq = <<>>, !.flacks = <<>>,
+                              !.chan = @ \o AckItems(s.flacks, TRUE)]
+               ELSE [s EXCEPT !.valok = FALSE, !.nfail = IF s.valok THEN @ + 1 ELSE @,
+                              !.fl = "idle", !.flq = <<>>, !.flacks = <<>>,
+                              !.chan = @ \o AckItems(s.flacks, FALSE),
+                              \* the write of the records that carry data failed (the others are completely in the log)
+                              !.gh = MarkFailed(@, SeqSet(AckLocksIn(s, vals)))]
+    /\ hist' = Append(hist, FlushEv("flushval", ok, s.midsteps))
+
+\* follower side: the record arrives, is replayed (locked, result res) and appended + flushed (aofed) in either order;
+\* the second of the two sends the ack frame (ReplicationClient.HandleAcked).  The follower's flush is the same
+\* AofFile.Flush: entry write (eok), then value write (vok, only when the record carries a value and the entry write
+\* worked); the aof result is positive after BOTH (deviation AckAfterRecords: after the entry write).  `logged` is the
+\* ghost "the record is completely in this follower's own log".
+FAck(f, rid, lres, aok, lg) == [f |-> f, rid |-> rid, ok |-> (lres /\ aok), logged |-> lg]
+FEv(op, f, rid, ok, n) == [op |-> op, id |-> n, lid |-> s.reqs[rid].lid, ack |-> FALSE, dv |-> 0, to |-> 0, f |-> f, rid |-> rid, ok |-> ok]
 
 FollowerLocked(f, rid, lres) ==
     /\ <<f, rid>> \in s.nlf \/ (<<f, rid>> \in DOMAIN s.fst /\ s.fst[<<f, rid>>].locked = "no")
     /\ ~lres => (s.nneg < MaxNeg /\ s.cls \in {"neg", "mix"})
-    /\ LET cur == IF <<f, rid>> \in DOMAIN s.fst THEN s.fst[<<f, rid>>] ELSE [locked |-> "no", aofed |-> "no"]
+    /\ LET cur == IF <<f, rid>> \in DOMAIN s.fst THEN s.fst[<<f, rid>>] ELSE [locked |-> "no", aofed |-> "no", logged |-> FALSE]
            nxt == [cur EXCEPT !.locked = IF lres THEN "ok" ELSE "err"]
        IN s' = IF nxt.aofed # "no"
                THEN [s EXCEPT !.nlf = @ \ {<<f, rid>>}, !.nneg = IF lres THEN @ ELSE @ + 1,
                               !.fst = [x \in DOMAIN @ \ {<<f, rid>>} |-> @[x]],
-                              !.nfl = @ \cup {FAck(f, rid, lres, nxt.aofed = "ok")}]
+                              !.nfl = @ \cup {FAck(f, rid, lres, nxt.aofed = "ok", nxt.logged)}]
                ELSE [s EXCEPT !.nlf = @ \ {<<f, rid>>}, !.nneg = IF lres THEN @ ELSE @ + 1,
                               !.fst = [x \in DOMAIN @ \cup {<<f, rid>>} |-> IF x = <<f, rid>> THEN nxt ELSE @[x]]]
-    /\ UNCHANGED hist
+    /\ hist' = Append(hist, FEv("frepl", f, rid, lres, 0))
 
-FollowerAofed(f, rid, aok) ==
+FollowerAofed(f, rid, eok, vok) ==
     /\ <<f, rid>> \in s.nlf \/ (<<f, rid>> \in DOMAIN s.fst /\ s.fst[<<f, rid>>].aofed = "no")
-    /\ ~aok => (s.nneg < MaxNeg /\ s.cls \in {"neg", "mix"})
-    /\ LET cur == IF <<f, rid>> \in DOMAIN s.fst THEN s.fst[<<f, rid>>] ELSE [locked |-> "no", aofed |-> "no"]
-           nxt == [cur EXCEPT !.aofed = IF aok THEN "ok" ELSE "err"]
+    /\ ~vok => (eok /\ s.reqs[rid].hv)          \* the value write is attempted only after a good entry write, for a record with a value
+    /\ ~(eok /\ vok) => (s.nneg < MaxNeg /\ s.cls \in {"neg", "mix"})
+    /\ LET aok == IF AckAfterRecords THEN eok ELSE eok /\ vok
+           cur == IF <<f, rid>> \in DOMAIN s.fst THEN s.fst[<<f, rid>>] ELSE [locked |-> "no", aofed |-> "no", logged |-> FALSE]
+           nxt == [cur EXCEPT !.aofed = IF aok THEN "ok" ELSE "err", !.logged = eok /\ vok]
        IN s' = IF nxt.locked # "no"
-               THEN [s EXCEPT !.nlf = @ \ {<<f, rid>>}, !.nneg = IF aok THEN @ ELSE @ + 1,
+               THEN [s EXCEPT !.nlf = @ \ {<<f, rid>>}, !.nneg = IF eok /\ vok THEN @ ELSE @ + 1,
                               !.fst = [x \in DOMAIN @ \ {<<f, rid>>} |-> @[x]],
-                              !.nfl = @ \cup {FAck(f, rid, nxt.locked = "ok", aok)}]
-               ELSE [s EXCEPT !.nlf = @ \ {<<f, rid>>}, !.nneg = IF aok THEN @ ELSE @ + 1,
+                              !.nfl = @ \cup {FAck(f, rid, nxt.locked = "ok", aok, nxt.logged)}]
+               ELSE [s EXCEPT !.nlf = @ \ {<<f, rid>>}, !.nneg = IF eok /\ vok THEN @ ELSE @ + 1,
                               !.fst = [x \in DOMAIN @ \cup {<<f, rid>>} |-> IF x = <<f, rid>> THEN nxt ELSE @[x]]]
-    /\ UNCHANGED hist
+    \* id: 0 = both writes worked, 1 = the entry write failed, 2 = the value write failed
+    /\ hist' = Append(hist, FEv("faof", f, rid, eok /\ vok, IF ~eok THEN 1 ELSE IF ~vok THEN 2 ELSE 0))
 
 \* FollowerSteps = 1: replay + flush + ack frame + RecvProcess as one step (frames lost by a cut = never sent)
 FollowerBoth(f, rid, ok) ==
@@ -341,9 +403,11 @@ Demote1 ==
 Demote2 ==
     /\ s.dem = 1 /\ s.chan = <<>>
     /\ LET acks == AckLocksIn(s, s.wbuf)
-           items == [j \in 1..Len(acks) |-> [t |-> "aofack", rid |-> acks[j], ok |-> s.fileok, f |-> 0]]
-       IN s' = [s EXCEPT !.dem = 2, !.wbuf = <<>>, !.chan = @ \o items,
-                         !.disk = IF s.fileok THEN @ \cup {s.wbuf[j] : j \in 1..Len(s.wbuf)} ELSE @]
+           vals == WithVal(s, s.wbuf)
+           allok == s.recok /\ (vals = <<>> \/ s.valok)
+       IN s' = [s EXCEPT !.dem = 2, !.wbuf = <<>>, !.chan = @ \o AckItems(acks, allok),
+                         !.disk = IF s.recok THEN @ \cup SeqSet(s.wbuf) ELSE @,
+                         !.vdisk = IF s.recok /\ s.valok THEN @ \cup SeqSet(vals) ELSE @]
     /\ UNCHANGED hist
 \* ... then ReplicationAckDB.SwitchToFollower fails every registered request
 RECURSIVE FailAll(_, _)
@@ -357,7 +421,8 @@ Init ==
     /\ \E md \in Modes, n \in NFs, c \in Classes, U \in SUBSET Fols :
        /\ Cardinality(U) = n
        /\ s = [mode |-> md, nf |-> n, cls |-> c, H |-> <<>>, W |-> <<>>, waited |-> FALSE, val |-> 0, cval |-> 0, reqs |-> <<>>, gh |-> <<>>, out |-> <<>>,
-            chan |-> <<>>, wbuf |-> <<>>, disk |-> {}, fileok |-> TRUE, tbl |-> {}, up |-> U, up0 |-> U,
+            chan |-> <<>>, wbuf |-> <<>>, disk |-> {}, vdisk |-> {}, recok |-> TRUE, valok |-> TRUE,
+            fl |-> "idle", flq |-> <<>>, flacks |-> <<>>, midsteps |-> 0, tbl |-> {}, up |-> U, up0 |-> U,
             nlf |-> {}, fst |-> [x \in {} |-> 0], nfl |-> {}, role |-> "leader", dem |-> 0, now |-> 0,
             nneg |-> 0, nfail |-> 0, ncut |-> 0]
     /\ hist = <<>>
@@ -365,24 +430,31 @@ Init ==
 \* Partial-order reduction: while the channel goroutine has work, only it and client requests move (flushes, follower
 \* events, cuts, timers and demotion steps commute with the handling of an item that is already queued, except for
 \* the timeout-before-registration lag that FireTimeout excludes anyway).  The clock only moves while something can time out.
+\* Between the two writes of a flush only the channel goroutine moves (client requests and environment events that
+\* arrive in that window are ordered after the flush: modelling bound).
 Busy == s.chan # <<>>
 Next ==
-    \/ \E lid \in Lids, dv \in Vals, to \in AckTimeouts : LockReq(lid, TRUE, dv, to)
-    \/ \E lid \in Lids, dv \in PlainVals, to \in Timeouts : LockReq(lid, FALSE, dv, to)
-    \/ \E lid \in Lids : UnlockReq(lid)
-    \/ ChanStep
-    \/ /\ ~Busy
-       /\ \/ \E ok \in BOOLEAN : LeaderFlush(ok)
-          \/ /\ FollowerSteps = 2
-             /\ \/ \E f \in Followers, rid \in 1..MaxReq, b \in BOOLEAN : FollowerLocked(f, rid, b) \/ FollowerAofed(f, rid, b)
-                \/ \E m \in s.nfl : DeliverAck(m)
-          \/ /\ FollowerSteps = 1
-             /\ \E f \in Followers, rid \in 1..MaxReq, b \in BOOLEAN : FollowerBoth(f, rid, b)
-          \/ \E f \in Followers : Cut(f)
-          \/ \E rid \in 1..MaxReq : FireTimeout(rid)
-          \/ /\ \E rid \in DOMAIN s.reqs : s.reqs[rid].st \in {"pend", "wait"}
-             /\ Tick
-          \/ Demote1 \/ Demote2 \/ Demote3
+    \/ /\ s.fl = "mid"
+       /\ \/ ChanStep
+          \/ \E ok \in BOOLEAN : FlushValues(ok)
+    \/ /\ s.fl = "idle"
+       /\ \/ \E lid \in Lids, dv \in Vals, to \in AckTimeouts : LockReq(lid, TRUE, dv, to)
+          \/ \E lid \in Lids, dv \in PlainVals, to \in Timeouts : LockReq(lid, FALSE, dv, to)
+          \/ \E lid \in Lids : UnlockReq(lid)
+          \/ ChanStep
+          \/ /\ ~Busy
+             /\ \/ \E ok \in BOOLEAN : FlushRecords(ok)
+                \/ /\ FollowerSteps = 2
+                   /\ \/ \E f \in Followers, rid \in DOMAIN s.reqs, b \in BOOLEAN : FollowerLocked(f, rid, b)
+                      \/ \E f \in Followers, rid \in DOMAIN s.reqs, eok \in BOOLEAN, vok \in BOOLEAN : FollowerAofed(f, rid, eok, vok)
+                      \/ \E m \in s.nfl : DeliverAck(m)
+                \/ /\ FollowerSteps = 1
+                   /\ \E f \in Followers, rid \in 1..MaxReq, b \in BOOLEAN : FollowerBoth(f, rid, b)
+                \/ \E f \in Followers : Cut(f)
+                \/ \E rid \in 1..MaxReq : FireTimeout(rid)
+                \/ /\ \E rid \in DOMAIN s.reqs : s.reqs[rid].st \in {"pend", "wait"}
+                   /\ Tick
+                \/ Demote1 \/ Demote2 \/ Demote3
 
 Spec == Init /\ [][Next]_vars
 
@@ -393,7 +465,8 @@ view == s
 
 AckSucc == {j \in 1..Len(s.out) : s.out[j].ack /\ s.out[j].res = SUCCED}
 
-\* C11 (1): SUCCED only after the record is in the leader's own log and the configured number of followers acked
+\* C11 (1): SUCCED only after the record is in the leader's own log (entry AND value frame, see Written) and the
+\* configured number of followers acked
 AckSafety == \A j \in AckSucc : s.out[j].ondisk /\ Cardinality(s.out[j].acks) >= s.out[j].req
 
 \* the same, setting aside exactly the configurations in which the shared counter of finding A10 can be completed by
@@ -417,6 +490,20 @@ ErrorCleansUp ==
     \A rid \in DOMAIN s.reqs :
         (s.reqs[rid].ack /\ s.reqs[rid].st = "done" /\ \E j \in 1..Len(s.out) : s.out[j].rid = rid /\ s.out[j].res # SUCCED)
             => IdxOfRid(s.H, rid) = 0
+\* C11 (1), the two halves of "written to the leader's own log" apart
+EntryInLog == \A j \in AckSucc : s.out[j].entry
+ValueInLog == \A j \in AckSucc : s.out[j].hv => s.out[j].value
+\* C11 (3) for the leader's write: once the channel has handled the outcome of a failed write (entry write or value
+\* write of a record that carries data) the requester has an error, never SUCCED, and the hold is gone
+FailedWriteAnswered ==
+    (s.chan = <<>> /\ s.fl = "idle" /\ s.dem \in {0, 3}) =>
+        \A rid \in DOMAIN s.reqs : s.gh[rid].wfail =>
+            /\ s.reqs[rid].st = "done"
+            /\ IdxOfRid(s.H, rid) = 0
+            /\ \A j \in 1..Len(s.out) : s.out[j].rid = rid => s.out[j].res # SUCCED
+\* the follower half of the handshake: a positive acknowledgement frame only for a record that is replayed and
+\* completely (entry and value frame) in that follower's own log
+FollowerAckHonest == \A m \in s.nfl : m.ok => m.logged
 ValueInv == (\A i \in 1..Len(s.H) : s.H[i].ackc = NOACK \/ s.H[i].dv = 0) => s.val = s.cval
 NoLostWakeup == (s.H = <<>>) => LiveWaiters(s) = <<>>
 OneReply == \A rid \in DOMAIN s.reqs : s.reqs[rid].nrep <= 1
@@ -426,11 +513,15 @@ Exclusive == Len(s.H) <= 1
 
 -----------------------------------------------------------------------------
 \* behaviour export for the replay on the real code (simulation mode)
-Quiet == s.chan = <<>> /\ s.nfl = {}
+Quiet == s.chan = <<>> /\ s.nfl = {} /\ s.fl = "idle"
 Export == ToJson([mode |-> s.mode, up0 |-> s.up0, hist |-> hist])
 ExportAt == (Len(s.reqs) = MaxReq /\ Quiet /\ Len(hist) >= 4) => PrintT("BEHAVIOUR " \o Export)
 
 \* used with A10Fixed = FALSE to obtain the counterexample of finding A10 as a replay script
 AckSafetyCx == AckSafety \/ (PrintT("CX " \o Export) /\ FALSE)
+\* used with AckAfterRecords = TRUE (deviation C11d): the two ways the early acknowledgement shows
+ValueInLogCx == ValueInLog \/ (PrintT("CX " \o Export) /\ FALSE)
+FollowerAckCx == FollowerAckHonest \/ (PrintT("CX " \o Export) /\ FALSE)
+FailedWriteCx == NoSuccessAfterFailure \/ (PrintT("CX " \o Export) /\ FALSE)
 
 =============================================================================
